@@ -97,7 +97,7 @@ func runC18(c *an.Ctx) {
 				switch fn.Name() {
 				case "NextBytes":
 					sl, isS := in.(*ssa.Slice)
-					ok := isS && sl.High != nil && clampedValue(fn, sl.High, sF) && fieldOfLoad(sl.Low) == offF
+					ok := isS && sl.High != nil && leqLenOfS(fn, sl.High, in, sF, 0) && fieldOfLoad(sl.Low) == offF
 					c.Check(ok, key, "the backing slice is sliced only as s[off:end] with end clamped to len(s)", c.P.Rel(in.Pos()), "slice bounds are not the offset and the clamped end")
 				case "NextByte":
 					ia, isI := in.(*ssa.IndexAddr)
@@ -170,7 +170,11 @@ func runC18(c *an.Ctx) {
 			return "?"
 		}
 		set := map[string]bool{}
-		for _, b := range fn.Blocks {
+		var blocks []*ssa.BasicBlock
+		for _, g := range an.InlineReach(fn) {
+			blocks = append(blocks, g.Blocks...)
+		}
+		for _, b := range blocks {
 			for _, in := range b.Instrs {
 				switch x := in.(type) {
 				case *ssa.BinOp:
@@ -211,7 +215,7 @@ func runC18(c *an.Ctx) {
 
 // clampedStore: the stored offset is the clamp idiom or a guarded increment.
 func clampedStore(fn *ssa.Function, st *ssa.Store, sF, offF *typesVar) (bool, string) {
-	if clampedValue(fn, st.Val, sF) {
+	if leqLenOfS(fn, st.Val, st, sF, 0) {
 		return true, ""
 	}
 	// off++ guarded by the early return on off >= len(s)
@@ -223,11 +227,16 @@ func clampedStore(fn *ssa.Function, st *ssa.Store, sF, offF *typesVar) (bool, st
 	return false, "the value assigned to off (" + st.Val.String() + ") is neither the clamped end of the SafeAdd idiom nor an increment guarded by off < len(s)"
 }
 
-// clampedValue: v is phi(end, m) where m = len(s) and the `end` edge comes
-// from the false side of `end > m` (and of the overflow flag).
+// clampedValue: v <= len(s) is established wherever v is used: v is len(s) itself, a merge whose every incoming
+// value is len(s) or is proven <= len(s) by the comparisons on that edge, a result of a private helper whose every
+// return satisfies the same, or a value the dominating comparisons bound by len(s). A SafeAdd sum additionally needs
+// its overflow flag tested. (Proof by inequality closure over dominating comparisons; no shape is prescribed.)
 func clampedValue(fn *ssa.Function, v ssa.Value, sF *typesVar) bool {
-	ph, ok := v.(*ssa.Phi)
-	if !ok {
+	return leqLenOfS(fn, v, nil, sF, 0)
+}
+
+func leqLenOfS(fn *ssa.Function, v ssa.Value, at ssa.Instruction, sF *typesVar, depth int) bool {
+	if depth > 4 {
 		return false
 	}
 	isLen := func(x ssa.Value) bool {
@@ -241,50 +250,60 @@ func clampedValue(fn *ssa.Function, v ssa.Value, sF *typesVar) bool {
 		bi, isB := k.Call.Value.(*ssa.Builtin)
 		return isB && bi.Name() == "len" && fieldOfLoad(k.Call.Args[0]) == sF
 	}
-	var m ssa.Value
-	for _, e := range ph.Edges {
-		if isLen(e) {
-			m = e
-		}
-	}
-	if m == nil {
-		return false
-	}
-	for i, e := range ph.Edges {
-		if e == m {
-			continue
-		}
-		pred := ph.Block().Preds[i]
-		iff, isIf := pred.Instrs[len(pred.Instrs)-1].(*ssa.If)
-		if !isIf {
-			return false
-		}
-		cmp, isB := iff.Cond.(*ssa.BinOp)
-		if !isB || cmp.Op != token.GTR || cmp.X != e || cmp.Y != m || pred.Succs[1] != ph.Block() {
-			return false
-		}
-		// e must come from SafeAdd and the overflow flag must have been tested before
+	overflowTested := func(e ssa.Value) bool {
 		ex, isE := e.(*ssa.Extract)
 		if !isE {
-			return false
+			return true
 		}
 		call, isC := ex.Tuple.(*ssa.Call)
 		if !isC || call.Call.StaticCallee() == nil || call.Call.StaticCallee().Name() != "SafeAdd" {
-			return false
+			return true
 		}
-		ovTested := false
 		for _, o := range an.Extracts(call)[1] {
 			for _, r := range *o.Referrers() {
-				if _, isIf2 := r.(*ssa.If); isIf2 {
-					ovTested = true
+				if _, isIf := r.(*ssa.If); isIf {
+					return true
 				}
 			}
 		}
-		if !ovTested {
+		return false
+	}
+	if isLen(v) {
+		return true
+	}
+	key := an.LenKeyOfField(fn, sF)
+	switch x := v.(type) {
+	case *ssa.Phi:
+		if key == "" {
 			return false
 		}
+		for i, e := range x.Edges {
+			if isLen(e) {
+				continue
+			}
+			if an.ProveLeqLen(fn, nil, x.Block().Preds[i], x.Block(), e, key) && overflowTested(e) {
+				continue
+			}
+			return false
+		}
+		return true
+	case *ssa.Extract:
+		if call, isC := x.Tuple.(*ssa.Call); isC {
+			if h := call.Call.StaticCallee(); h != nil && h.Blocks != nil && h.Pkg == fn.Pkg && h.Object() != nil && !h.Object().Exported() {
+				rets := an.Returns(h)
+				for _, r := range rets {
+					if x.Index >= len(r.Results) || !leqLenOfS(h, r.Results[x.Index], r, sF, depth+1) {
+						return false
+					}
+				}
+				return len(rets) > 0
+			}
+		}
 	}
-	return true
+	if at != nil && key != "" && an.ProveLeqLen(fn, at, nil, nil, v, key) && overflowTested(v) {
+		return true
+	}
+	return false
 }
 
 // guardedByOffLtLen: in dominates-only form: some dominating If tests
